@@ -238,6 +238,10 @@ class Interpolation(Node):
         "default_marker",
     )
 
+    # Character entities in an expression belong to the markup around
+    # it and are decoded; a text template has no markup.
+    decode_htmlentities = True
+
 
 class Replace(Node):
     """Replace non-empty value with string."""
